@@ -3,6 +3,9 @@ use crate::{
     ShortMessage, StructuredShortMessage, U14, U7,
 };
 use core::time::Duration;
+#[cfg(helgoboss_midi_verif)]
+use crate::verif_hooks::Instant;
+#[cfg(not(helgoboss_midi_verif))]
 use std::time::Instant;
 
 /// Scanner for detecting (N)RPN messages in a stream of short messages with polling.
